@@ -385,11 +385,19 @@ class Body:
             nm = self.local_names().get(local)
             if nm:
                 out.add("param:" + nm)
+            # the name this position had when the rules were reviewed (rules/param_names.json): a renamed parameter keeps its anchor
+            sn = self.facts.param_snapshot().get(self.path)
+            if sn and len(sn) == self.argc and sn[local - 1]:
+                out.add("param:" + sn[local - 1])
             if local >= 2 and self.parent and self.kind != "Fn":
                 out |= self.closure_param_sources()
         nm = self.local_names().get(local)
         if nm:
             out.add("var:" + nm)
+            # the declared type of a named user variable: a rename-proof way to recognise it (`vty:<type>`)
+            locs = self.rec.get("locals") or []
+            if local < len(locs):
+                out.add("vty:" + str(locs[local]))
         for d in self.defs().get(local, []):
             if d[0] == "assign":
                 rv = d[3]
@@ -615,6 +623,18 @@ class Facts:
                 self.files[name] = f
         self.loaded_bodies = 0
         self.touched = set()
+
+    _psnap = None
+
+    def param_snapshot(self):
+        if Facts._psnap is None:
+            p = os.path.join(os.path.dirname(os.path.dirname(os.path.abspath(__file__))), "rules", "param_names.json")
+            try:
+                with open(p) as fh:
+                    Facts._psnap = json.load(fh)
+            except OSError:
+                Facts._psnap = {}
+        return Facts._psnap
 
     def crates(self):
         return sorted(self.files)
